@@ -45,7 +45,7 @@ def main():
           res["demo_tail_patched"] = o2[-300:]
         checks = {}
         for p in props:
-            rc, out = run(f".venv/bin/python -m pyvc.cli check {p}", env={"PYTHONPATH": os.path.join(tmp, "src"), "PYVC_REPO_SRC": os.path.join(tmp, "src")}, cwd=ROOT, timeout=3000)
+            rc, out = run(f".venv/bin/python -m pyvc.cli check {p}", env={"PYTHONPATH": os.path.join(tmp, "src"), "PYVC_REPO_SRC": os.path.join(tmp, "src"), "PYVC_EVIDENCE_DIR": os.path.join(tmp, "evidence")}, cwd=ROOT, timeout=3000)
             lines = [l for l in out.splitlines() if l.startswith(("VIOLATION", "UNDECIDED", "CRASH", p + ":"))]
             checks[p] = {"exit": rc, "violations": [l.split("obligation=")[1] for l in lines if l.startswith("VIOLATION")][:12], "summary": [l for l in lines if l.startswith(p + ":")]}
         res["checks"] = checks
